@@ -28,6 +28,7 @@ type History struct {
 	Batches  [][]int `json:"batches"`
 	Restart  []bool  `json:"restart,omitempty"`  // restart the importer before batch i
 	DropSnap []bool  `json:"dropsnap,omitempty"` // delete snapshot files at that restart
+	FailSnap []bool  `json:"failsnap,omitempty"` // the snapshot file of batch i cannot be created (the import itself succeeds)
 }
 
 type Plan struct {
@@ -138,6 +139,10 @@ func (Engine) Generate(prop, tier string, seed, run uint64) json.RawMessage {
 				hist.Restart = append(hist.Restart, rs)
 				hist.DropSnap = append(hist.DropSnap, rs && r.IntN(2) == 0)
 			}
+			if r.IntN(4) == 0 {
+				hist.FailSnap = make([]bool, len(hist.Batches))
+				hist.FailSnap[r.IntN(len(hist.Batches))] = true
+			}
 			p.Hist = append(p.Hist, hist)
 		}
 	}
@@ -233,6 +238,7 @@ func (Engine) Execute(planJSON json.RawMessage, scratch string) (res sim.RunResu
 		}
 		defer im.Close()
 		imported := map[int]bool{}
+		failedBefore := simrt.FailedCreates()
 		for bi, b := range h.Batches {
 			if bi < len(h.Restart) && h.Restart[bi] {
 				if bi < len(h.DropSnap) && h.DropSnap[bi] {
@@ -257,7 +263,18 @@ func (Engine) Execute(planJSON json.RawMessage, scratch string) (res sim.RunResu
 				names = append(names, capt.Names[fi])
 				imported[fi] = true
 			}
+			failSnap := bi < len(h.FailSnap) && h.FailSnap[bi]
+			if failSnap {
+				simrt.FailCreates(".snap", 1)
+			}
 			irs, err := im.Import(names)
+			if failSnap {
+				if simrt.FailedCreates() > failedBefore {
+					res.Count("fault_snapshot_save_failed", 1)
+					failedBefore = simrt.FailedCreates()
+				}
+				simrt.FailCreates("", 0)
+			}
 			if err != nil {
 				viol("import", "import-error", fmt.Sprintf("history %d batch %d %v: %v", hi, bi, names, err))
 				return nil, false
@@ -598,7 +615,7 @@ func renumber(h History, nf int) History {
 	return nh
 }
 
-var mergeBattery = []string{"sport:80 sort:id", "data:\"FLAG\" sort:id", "cdata:alpha sort:-id", "cbytes:100: sort:id", "chost:10.0.0.0/16 sort:id", "protocol:udp sort:id", "id:1:3 sort:id", "sort:id limit:3", "host:fd00::1:0/112 sort:id", "sbytes::50 sort:id limit:2", "-data:\"passwd\" sort:id", "sort:sbytes,id", "sort:-cbytes,id limit:4", "chost:10.0.0.0/8 sort:id", "host:fd00::/16 sort:id", "-chost:10.0.0.0/8 sort:id", "-shost:fd00::/16 sort:id", "@s:id:0 ftime:@s:ltime@: sort:id", "@s:id:1 ltime::@s:ftime@+10s sort:id", "@s:id:2 ftime:@s:ftime@-30s:@s:ltime@+30s sort:id"}
+var mergeBattery = []string{"sport:80 sort:id", "data:\"FLAG\" sort:id", "cdata:alpha sort:-id", "cbytes:100: sort:id", "chost:10.0.0.0/16 sort:id", "protocol:udp sort:id", "id:1:3 sort:id", "sort:id limit:3", "host:fd00::1:0/112 sort:id", "sbytes::50 sort:id limit:2", "-data:\"passwd\" sort:id", "sort:sbytes,id", "sort:-cbytes,id limit:4", "sort:chost,id", "sort:-shost,id limit:3", "sort:shost,cport,id", "chost:10.0.0.0/8 sort:id", "host:fd00::/16 sort:id", "-chost:10.0.0.0/8 sort:id", "-shost:fd00::/16 sort:id", "@s:id:0 ftime:@s:ltime@: sort:id", "@s:id:1 ltime::@s:ftime@+10s sort:id", "@s:id:2 ftime:@s:ftime@-30s:@s:ltime@+30s sort:id"}
 
 func stackSig(readers []*index.Reader) (string, error) {
 	vis, err := oracle.Visible(readers)
